@@ -730,7 +730,7 @@ func body(r *vlib.Run) {
 func main() {
 	vlib.Main(&vlib.Spec{
 		ID:   "C13",
-		Rule: "Each trial: the real manager.Manager over the real connection.Manager with a bufconn dialer; 1-4 targets (sharing one address or not), 3-8 scripted sessions each (0-20 numbered update/sync messages, then error / EOF / block), scripted dial refusals, optional 50 ms receive timeout, forced Reconnect / Remove+re-Add at seeded message indexes and during backoff, duplicate Add, unknown Remove/Reconnect. Every callback, connection attempt and stream opening (first SendMsg succeeded, via a client stream interceptor) feeds an online per-target state machine. A trial is distinct non-trivial by the hash of its complete per-target event-kind traces.",
+		Rule: "Each trial: the real manager.Manager over the real connection.Manager with a bufconn dialer; 1-4 targets (sharing one address or not), 3-8 scripted sessions each (0-20 numbered update/sync messages, then error / EOF / block), scripted dial refusals at the wrapper and delayed dial failures inside the connection manager (so that targets sharing an address join a failing attempt), a manager-wide receive timeout of 0 or 50 ms combined with per-target receive_timeout overrides (none / 50ms / 0s), forced Reconnect, Remove+re-Add, two overlapping Removes with an immediate re-Add, at seeded message indexes and during backoff, duplicate Add, unknown Remove/Reconnect; in a third of the trials the Reset/Update callbacks are slow (user code), and every Add/Remove/Reconnect call is bounded (a call that never returns is a violation when the dump shows it inside the manager). Every callback, connection attempt and stream opening (first SendMsg succeeded, via a client stream interceptor) feeds an online per-target state machine. A trial is distinct non-trivial by the hash of its complete per-target event-kind traces.",
 		Assumptions: []string{
 			"RetryBaseDelay/RetryMaxDelay are set to 20/40 ms; liveness is restated as bounded progress: a scripted session not opened within 40 s (1000 x RetryMaxDelay) while the target is managed is a violation only when the goroutine dump attributes it",
 			"the backoff clause is one-sided: gap between the end of a failed attempt and the next attempt >= 0.5 x RetryBaseDelay (load only lengthens gaps)",
